@@ -121,10 +121,9 @@ def to_coq_case(rec):
     for st, so in zip(inp.get("steps") or [], obs["steps"]):
         op = st["op"]
         if op == "params":
-            if not so.get("ok"):
-                continue  # refused by Params.Validate: nothing changed
             al = [d % NDENOMS for d in st.get("allowed") or []]
-            steps.append("CParams (mkp %s %s %s)" % ("true" if st.get("enabled") else "false", _z(st.get("share", "0")), _nl(al)))
+            steps.append("CParams (mkp %s %s %s) %s" % ("true" if st.get("enabled") else "false", _z(st.get("share", "0")), _nl(al),
+                                                       "true" if so.get("ok") else "false"))
         elif op == "admin":
             if not so.get("ok"):
                 continue
